@@ -637,7 +637,16 @@ func emptyTestOf(cond ssa.Value, truth bool) (ssa.Value, bool, bool) {
 	if call, ok := cond.(*ssa.Call); ok {
 		if f := call.Call.StaticCallee(); f != nil && len(f.Blocks) == 1 {
 			if ret, ok := f.Blocks[0].Instrs[len(f.Blocks[0].Instrs)-1].(*ssa.Return); ok && len(ret.Results) == 1 {
-				return emptyTestOf(ret.Results[0], truth)
+				x, empty, ok := emptyTestOf(ret.Results[0], truth)
+				// the helper's parameter stands for what the caller handed in
+				if prm, isP := x.(*ssa.Parameter); ok && isP {
+					for i, fp := range f.Params {
+						if fp == prm && i < len(call.Call.Args) {
+							x = call.Call.Args[i]
+						}
+					}
+				}
+				return x, empty, ok
 			}
 		}
 		return nil, false, false
